@@ -1,0 +1,6 @@
+//go:build !verif
+
+package gogu
+
+// verifDebounceGap does nothing unless the package is built with the tag verif (see verif_hooks.go).
+func verifDebounceGap() {}
